@@ -424,6 +424,20 @@ func (n *Net) Inject(s Side, b []byte) {
 	}
 }
 
+// Take removes and returns everything pending from side s, as if the harness
+// (acting as the peer, e.g. a reference implementation) had read it.
+func (n *Net) Take(s Side) []byte {
+	n.mu.Lock()
+	defer n.mu.Unlock()
+	d := n.d[s]
+	b := append([]byte(nil), d.pending...)
+	d.pending = nil
+	d.released += int64(len(b))
+	d.read += int64(len(b))
+	n.gen++
+	return b
+}
+
 // Written / Released / ReadCount return the stream counters of direction s.
 func (n *Net) Written(s Side) int64 {
 	n.mu.Lock()
